@@ -18,7 +18,11 @@ WORDS = ["Stop", "Open", "Play", "Pause", "Idle", "Run", "Load", "Eject", "Seek"
          "None", "none", "Null", "True",
          # names that contain the word of a template tag (TransactionName contains actionName, SafeguardName guardName,
          # PreventName eventName, EstateName stateName), names that begin like `none`, names that are a part of `none`
-         "TransactionName", "SafeguardName", "PreventName", "EstateName", "NonEmpty", "NoNetwork", "NoneLeft", "On", "No", "One"]
+         "TransactionName", "SafeguardName", "PreventName", "EstateName", "NonEmpty", "NoNetwork", "NoneLeft", "On", "No", "One",
+         "Q", "A1", "V2x", "ExtraordinarilyLongIdentifierForTheElementInQuestion",
+         # not ASCII (letters without upper / lower case, so that every case variant of the engine is defined the same way
+         # by Python and by the model): two such names agree in all their ASCII characters
+         "\u72b6\u614b", "\u5f85\u6a5f", "\u958b\u59cb", "\u505c\u6b62"]
 
 # the harness used to give every kind of name its own fixed prefix (State..., Event..., On..., Guard...); real tables do not
 PREFIXES = {"State": ["State", "State", "St", ""], "Event": ["Event", "Event", "Ev", ""], "On": ["On", "On", "Do", "", ""],
@@ -111,10 +115,58 @@ def names(r, kind, n, taken):
                 continue
         else:
             w = kind_prefix + camel(r)
-        if w not in taken and w not in ("None", "True", "False"):
+        # (two names that differ only in the case of their first letter - NoneEject / noneEject - are one identifier for the
+        #  back ends: every element also appears with a small first letter, as instance or member name)
+        small = lambda x: x[:1].lower() + x[1:]
+        if w not in taken and w not in ("None", "True", "False") and small(w) not in {small(t) for t in taken if isinstance(t, str)}:
             taken.add(w)
             out.append(w)
     return out
+
+
+ADJECTIVES = ["Busy", "Running", "Stopped", "Empty", "Active", "Alive", "Valid", "Ready", "Done", "Open", "Closed", "Connected", "Idle", "Full", "Started", "Enabled"]
+
+
+SHORT_NAMES = ["On", "No", "One", "Ne", "Non", "N", "O", "E"]      # parts of the word `none`
+
+
+def with_state_named(model, name, target=False):
+    """the model with its first state - or, with `target`, a state some row leads to - renamed (everywhere in the table)"""
+    m = copy.deepcopy(model)
+    old = m["tt"][0][0]
+    if target:
+        tg = [row[2] for row in m["tt"] if row[2] and row[2].lower() != "none"]
+        old = tg[0] if tg else old
+    if any(name in row for row in m["tt"]):
+        return m
+    for row in m["tt"]:
+        for c in (0, 2):
+            if row[c] == old:
+                row[c] = name
+    return m
+
+
+def with_non_ascii_twins(r, model):
+    """two names of one role that agree in every ASCII character and differ in the others (Door\u72b6\u614b / Door\u5f85\u6a5f):
+    their tags must stay two tags"""
+    m = copy.deepcopy(model)
+    cols = r.choice([(0, 2), (3,), (4,)])
+    present = sorted({row[c] for row in m["tt"] for c in cols if row[c] and row[c].lower() != "none"})
+    stem = r.choice(["Door", "Phase", "X"])
+    twins = [stem + "\u72b6\u614b", stem + "\u5f85\u6a5f"]
+    if len(present) >= 2:
+        a, b = r.sample(present, 2)
+        ren = {a: twins[0], b: twins[1]}
+        for row in m["tt"]:
+            for c in cols:
+                row[c] = ren.get(row[c], row[c])
+    elif present:
+        for row in m["tt"]:
+            for c in cols:
+                if row[c] == present[0]:
+                    row[c] = twins[0]
+        m["tt"].append([m["tt"][0][0], m["tt"][0][1]] + [twins[1] if c_ in cols else "None" for c_ in (2, 3, 4)])
+    return m
 
 
 def rand_table(r, big=False):
@@ -128,6 +180,13 @@ def rand_table(r, big=False):
     events = names(r, "Event", ne, taken)
     actions = names(r, "On", na, taken)
     guards = names(r, "Guard", ng, taken)
+    if r.random() < 0.3:
+        # a state called by a bare adjective: its query is Is<State>() - IsBusy(), IsRunning(), IsEmpty() ... names a
+        # template author is tempted to use for helpers of his own
+        adj = r.choice(ADJECTIVES)
+        if adj not in taken:
+            taken.add(adj)
+            states[r.randrange(len(states))] = adj
     nrows = r.randint(1, 12 if big else 7)
     rows = []
     none_sp = lambda: r.choice(["None", "None", "none", ""])
@@ -297,7 +356,7 @@ def rand_proto_model(r, big=False):
                 mem.append(("m%d" % j, t, d))
         structs.append((sn, mem))
     msgs = []
-    ids = r.sample(range(1, 200), r.randint(1, 5 if big else 3))
+    ids = r.sample(list(range(1, 200)) + [0, 255, 256, 257, 65535, 65534, 1000], r.randint(1, 5 if big else 3))
     for i, mid in enumerate(ids):
         mn = "Msg" + names(r, "", 1, taken)[0]
         mem = []
@@ -366,7 +425,23 @@ def rand_uml_model(r):
     return m
 
 
+AUTHORS = ["auth", "auth", "A. U. Thor", "J\u00f6rg M\u00fcller", ""]
+GROUPS = ["grp", "grp", "", "Drive Control 2"]
+BRIEFS = ["brief", "brief", "Does things.", "", "\u00dcbersicht (caf\u00e9)"]
+
+
+def with_meta(r, m):
+    """author / group / brief as a user gives them: with blanks, empty, not ASCII (the harness used to pin all three)"""
+    if r.random() < 0.4:
+        m = dict(m, author=r.choice(AUTHORS), group=r.choice(GROUPS), brief=r.choice(BRIEFS))
+    return m
+
+
 def rand_model(r, kinds=("sm", "sm", "sm", "proto", "uml"), big=False):
+    return with_meta(r, _rand_model(r, kinds, big))
+
+
+def _rand_model(r, kinds=("sm", "sm", "sm", "proto", "uml"), big=False):
     k = r.choice(kinds)
     if k == "sm":
         return rand_sm_model(r, big=big)
@@ -422,13 +497,14 @@ class Runner:
 
             cg.createoutput = co_wrapper
 
-    def generate(self, model, outdir, copy_other=None):
+    def generate(self, model, outdir, copy_other=None, tt_obj=None):
         """returns (return value, captured fresh code model or None)"""
         G = self.G
         if copy_other is None:
             copy_other = bool(model.get("copy_other", False))      # kojen's own default is True: the support sources are copied next to the output
         self.captured = []
         self.captured_out = []
+        self.tt_obj = tt_obj        # the caller's own table list, handed over as it is (a script that generates several back ends from one table)
         try:
             return self._generate(G, model, outdir, copy_other)
         except Exception as e:      # noqa
@@ -442,21 +518,36 @@ class Runner:
                 if self.itf_cache is not None:
                     key = json.dumps(model["iface"], sort_keys=True, default=str)
                     if key not in self.itf_cache:
-                        self.itf_cache[key] = build_iface(self.kt, model["iface"])
+                        # a description that only lost structs: the user's script removes them from the object it holds
+                        # (Interface is an ordered dictionary: pop is its documented way to remove an entry)
+                        prev = self.itf_cache.get("__last__")
+                        evolved = None
+                        if prev is not None:
+                            pspec, pobj = prev
+                            old_names = [s_[0] for s_ in pspec["structs"]]
+                            new_names = [s_[0] for s_ in model["iface"]["structs"]]
+                            rest = dict(pspec, structs=None) == dict(model["iface"], structs=None)
+                            kept = [s_ for s_ in pspec["structs"] if s_[0] in new_names]
+                            if rest and len(new_names) < len(old_names) and json.dumps(kept, default=str) == json.dumps(model["iface"]["structs"], default=str):
+                                for gone in [n_ for n_ in old_names if n_ not in new_names]:
+                                    pobj.pop(gone)
+                                evolved = pobj
+                        self.itf_cache[key] = evolved if evolved is not None else build_iface(self.kt, model["iface"])
                     itf = self.itf_cache[key]
+                    self.itf_cache["__last__"] = (copy.deepcopy(model["iface"]), itf)
                 else:
                     itf = build_iface(self.kt, model["iface"])
                 fn = {"cpp": G.StateMachine, "cs": G.StateMachine_CSHARP, "py": G.StateMachine_PYTHON}[model["backend"]]
-                ret = fn(outdir, copy.deepcopy(model["tt"]), itf, model["ns"], model["name"], model.get("dclspc", ""),
-                         "auth", "grp", "brief", model.get("templatedir", ""), "", copy_other)
+                ret = fn(outdir, self.tt_obj if self.tt_obj is not None else copy.deepcopy(model["tt"]), itf, model["ns"], model["name"], model.get("dclspc", ""),
+                         model.get("author", "auth"), model.get("group", "grp"), model.get("brief", "brief"), model.get("templatedir", ""), "", copy_other)
             elif model["kind"] == "proto":
                 itf = build_proto_iface(self.kt, model)
-                ret = G.Protocol(outdir, itf, model["ns"], model["name"], "", "auth", "grp", "brief", model.get("templatedir", ""), "", copy_other)
+                ret = G.Protocol(outdir, itf, model["ns"], model["name"], "", model.get("author", "auth"), model.get("group", "grp"), model.get("brief", "brief"), model.get("templatedir", ""), "", copy_other)
             elif model["kind"] == "uml":
                 fn = G.UML if model["backend"] == "uml" else G.UML_CSHARP
                 import umlsynth
                 with (umlsynth.installed(model["synth"]) if model.get("synth") else contextlib.nullcontext()):
-                    ret = fn(outdir, model["project"], model["diagram"], model.get("dclspc", ""), "auth", "grp", "brief",
+                    ret = fn(outdir, model["project"], model["diagram"], model.get("dclspc", ""), model.get("author", "auth"), model.get("group", "grp"), model.get("brief", "brief"),
                              model.get("ns_folders", False), "")
             else:
                 raise ValueError(model["kind"])
@@ -621,8 +712,14 @@ def _rename_in_tt(tt, col_set, old, new):
 def mutate_sm(r, m):
     m = copy.deepcopy(m)
     tt = m["tt"]
-    op = r.randrange(9)
+    op = r.randrange(10)
     taken = {x for row in tt for x in row}
+    if op == 9:
+        if m["iface"]["structs"]:
+            m["iface"]["structs"] = list(m["iface"]["structs"])
+            del m["iface"]["structs"][r.randrange(len(m["iface"]["structs"]))]      # an event loses its parameters (or a stateless event goes)
+            return m, "drop-event-struct"
+        op = 8
 
     def fresh(prefix, old=None, pool=()):
         """a new name; often one that extends an existing name (EvGo -> EvGoFast, IsReady -> IsReady2): the tags of the
